@@ -189,7 +189,8 @@ where
         .collect();
 
     // Sort by distance (ascending)
-    results.sort_by(|a, b| a.1.partial_cmp(&b.1).unwrap_or(std::cmp::Ordering::Equal));
+    // total_cmp is a total order (NaN last); partial_cmp is not, and sort_by may panic on it
+    results.sort_by(|a, b| a.1.total_cmp(&b.1));
 
     // Truncate to k
     results.truncate(k);
@@ -227,7 +228,8 @@ where
         .map(|(id, vec)| (id, compute_distance(query, vec, metric)))
         .collect();
 
-    results.sort_by(|a, b| a.1.partial_cmp(&b.1).unwrap_or(std::cmp::Ordering::Equal));
+    // total_cmp is a total order (NaN last); partial_cmp is not, and sort_by may panic on it
+    results.sort_by(|a, b| a.1.total_cmp(&b.1));
     results.truncate(k);
     results
 }
